@@ -248,6 +248,12 @@ def rule_memo_key(facts):
     for _, bl, t, f in calls(b):
         if f is not None and f["name"] == "entry" and "HashMap" in f["path"]:
             keyl = mirq.operand_place(t["args"][1]["op"])
+    if keyl is None:
+        # the table may be consulted with get / contains_key + insert instead of the entry API: the key of the first lookup
+        for _, bl, t, f in calls(b):
+            if f is not None and f["name"] in ("get", "get_mut", "contains_key", "insert", "remove") and "HashMap" in f["path"] and keyl is None:
+                dp = mirq.direct_place(b, t["args"][1]["op"])
+                keyl = dp if dp is not None and not dp["p"] else mirq.operand_place(t["args"][1]["op"])
     ok = keyl is not None
     why = ""
     if ok:
